@@ -11,6 +11,7 @@ import Driver.OpsGeom
 import Driver.OpsFar
 import Driver.OpsFill
 import Driver.OpsNear
+import Driver.OpsReport
 open Driver
 
 def opGrid (args : List String) : String :=
@@ -57,6 +58,7 @@ def dispatch (line : String) : String :=
   | "far" :: r => opFar r
   | "fill" :: r => opFill r
   | "near" :: r => opNear r
+  | "report" :: r => opReport r
   | _ => "bad-op"
 
 partial def loop (h : IO.FS.Stream) (out : IO.FS.Stream) : IO Unit := do
